@@ -601,9 +601,12 @@ def batch_rule(ctx):
         res.fail(Finding(rule, sm.module, sm.qualname, sm.node, msg, construct=key))
 
     n_ok = 0
+    thorough = getattr(ctx, "tier", "quick") == "thorough"
+    n_range = range(1, 41) if thorough else range(1, 8)
+    b_values = (None,) + tuple(range(1, 45)) if thorough else (None, 1, 2, 3, 4, 7, 9)
     for cx in (None, Sym(("ctx",))):
-        for n in range(1, 8):
-            for b in (None, 1, 2, 3, 4, 7, 9):
+        for n in n_range:
+            for b in b_values:
                 tag = "sample(%d, context=%s, batch_size=%s)" % (n, "None" if cx is None else "<rows>", b)
                 obj = Obj({"_sample": SymFn("_sample", 1)}, methods)
                 pe = PEval(obj)
